@@ -29,6 +29,7 @@ META = {
         "C05.P4 connect transition precedes the start of the receive threads",
         "C05.P5 connected/disconnected wiring: transition + event on every path; select enter handler fires communicating; linktest timer armed/cancelled in pairs",
         "C05.X1 no call that can raise precedes the gate/reject/delivery outside a broad try",
+        "C05.P5 (shared clauses) control frames are cut from the byte stream exactly (C04.P1), the receive threads are created anew per connection and not left asleep (dispatcher group), disable() lowers the enabled flag and always closes the open link (C09.W2)",
     ],
     "does_not_decide": ["behaviour over wall-clock timers (T6/T7/linktest period)", "TCP-level ordering", "Separate.req handling beyond dispatch (known finding)"],
     "assumptions": ["_dispatch_block delivers complete messages one at a time (C06.W1)", "handlers read no other mutable state than the connection state and the disconnecting flag (read-set listed in the evidence)"],
@@ -476,6 +477,18 @@ def run(ctx):
     check_data_gate(ctx)
     check_wiring(ctx)
     shared(ctx, "C05.P5", transactions=True)
+    # "every Select, Deselect and Linktest request is answered", also when it is cut by TCP segmentation, also on the
+    # second connection, and "local disable" ends the session: the control frame is cut from the stream exactly (C04.P1),
+    # the receive threads are created anew for every connection and woken for every segment (dispatcher group), and
+    # disable() always closes the open link (C09.W2)
+    from .. import report
+    from ._dispatch import check_dispatcher
+    from .c04 import check_framing
+    from .c09 import check_idle_and_disable
+
+    report.share(ctx, "C05.P5", check_framing)
+    check_dispatcher(ctx, "C05.P5", wakeups=True, consumers=False, reconnect=True)
+    report.share(ctx, "C05.P5", check_idle_and_disable)
 
 
 def shared(ctx, rule, transactions=False):
